@@ -222,6 +222,8 @@ func (c *Check) absorb(p *plan.Plan, pr *ProcResult) {
 					c.logByFlags[fmt.Sprintf("flags=%d", b)] += o.LogBytes
 				}
 			}
+		} else if p.Sink == "slow" || p.Sink == "stuck" {
+			// counted by the worker when a write was actually held up (faultsFired)
 		} else if fl&30 != 0 {
 			// a failing sink on a run whose flags make the library log: every log write of the run fails
 			c.sinkArmed["sink:"+p.Sink+":write-error-on-logging-run"]++
